@@ -209,6 +209,27 @@ def print_assumptions(prop_module, names, rundir):
             res[cur].append(m.group(1))
     return res, out
 
+def coqchk(prop_module, timeout=3000):
+    """Runs the independent checker on a compiled property module (thorough tier). Returns (ok, axioms, output):
+    ok is False when coqchk fails or reports type-in-type, unsafe (co)fixpoints or assumed positivity."""
+    rc, out = sh(["coqchk", "-silent", "-o", "-Q", COQ, "L21", "L21." + prop_module], timeout=timeout, cwd=WORK)
+    if rc != 0:
+        return False, [], out
+    sect = {}
+    cur = None
+    for line in out.splitlines():
+        m = re.match(r"\* ([^:]+):\s*(.*)$", line.strip())
+        if m:
+            cur = m.group(1).strip()
+            sect[cur] = [m.group(2).strip()] if m.group(2).strip() else []
+        elif cur and line.strip():
+            sect[cur].append(line.strip())
+    def items(k):
+        return [x for x in sect.get(k, []) if x and x != "<none>"]
+    ok = not items("Constants/Inductives relying on type-in-type") and not items("Constants/Inductives relying on unsafe (co)fixpoints") \
+        and not items("Inductives whose positivity is assumed") and "Axioms" in sect
+    return ok, items("Axioms"), out
+
 # ---------------------------------------------------------------- harness
 def build_harness(bins, timeout=1800):
     """Builds the harness binaries `bins` (e.g. ["c15"]) against /repo's working tree, hooks enabled."""
@@ -431,6 +452,19 @@ class Check:
             for a in ax:
                 if a not in ALLOWED_AXIOMS:
                     bad.append("theorem %s depends on non-allow-listed axiom %s" % (n, a))
+        chk_note = None
+        if ok2 and self.tier == "thorough":
+            # independent re-check of the compiled property module and everything it depends on
+            cok, cax, cout = coqchk(prop_module)
+            self.write_log("coqchk.log", cout)
+            if not cok:
+                bad.append("coqchk failed on %s: %s" % (prop_module, last_error(cout)))
+            else:
+                for a in cax:
+                    if a not in ALLOWED_AXIOMS and a.split(".")[-1] not in {x.split(".")[-1] for x in ALLOWED_AXIOMS}:
+                        bad.append("coqchk: %s depends on non-allow-listed axiom %s" % (prop_module, a))
+                chk_note = "coqchk -o on L21.%s and its dependencies: axioms %s; no type-in-type, unsafe fixpoints or assumed positivity" % (
+                    prop_module, ", ".join(cax) if cax else "<none>")
         if bad:
             self.broken.append("static gate: " + "; ".join(bad[:10]))
         self.proof_ok = ok2 and not bad and okt
@@ -442,6 +476,8 @@ class Check:
             "axioms reported by Print Assumptions: " + (", ".join(allax) if allax else "none (Closed under the global context)"),
             "correspondence check: Python generators (tools/), Rust harness /verif/harness (glue from JSON to the public API of /repo), model evaluated by coqc vm_compute on the same inputs",
         ]
+        if chk_note:
+            self.cov["trusted_base"].append(chk_note)
         return self.proof_ok
 
     def write_log(self, name, txt):
